@@ -966,7 +966,7 @@ func mutProperty(id, level, rule string, gen func() *rapid.Generator[*Spec], foc
 			if tier == "thorough" {
 				return 12
 			}
-			return 4
+			return 8
 		},
 		Timeout: func(tier string) time.Duration {
 			if tier == "thorough" {
